@@ -110,9 +110,18 @@ def run(ctx: Ctx) -> Result:
     # decomposed accents, a trailing separator, an empty prefix against none)
     for (u1, u2) in [('a', 'a_1'), (None, 'a'), ('1', None), ('x_1', 'x'), ('urn:x:Lab:1', 'urn:x:lab:1'), ('Dev', 'dev'),
                      ('URN:x', 'urn:x'), (' a', 'a'), ('a ', 'a'), ('caf\u00e9', 'cafe\u0301'), ('a_', 'a'), ('', None),
-                     ('a:b', 'a:B'), ('\uff41', 'a'), ('a\u200b', 'a')]:
+                     ('a:b', 'a:B'), ('\uff41', 'a'), ('a\u200b', 'a'),
+                     # prefixes that some templating would expand: the prefix is text, not a pattern
+                     ('edge-{seq}', 'edge-0'), ('edge-{sec}', 'edge-1'), ('a{}', 'a1'), ('{{', '{'), ('a%d', 'a1'), ('%s', '1'),
+                     ('{0}', '1'), ('a{count}', 'a0'), ('a{last}', 'a1'), ('$x', 'x'), ('a\\1', 'a1')]:
         r = steps_to_readings(1, [0, 1, 0, 0, 1, -1, 0, 11, 0])
-        i1, i2 = impl_ids(u1, r), impl_ids(u2, r)
+        try:
+            i1, i2 = impl_ids(u1, r), impl_ids(u2, r)
+        except Exception as e:      # noqa
+            res.add_case({'prefixes': [u1, u2], 'readings': r})
+            res.violations.append(Violation('prefix-raises', f"generate() with prefix {u1!r} / {u2!r} raised {type(e).__name__}: {e}",
+                                            {'prefixes': [u1, u2], 'readings': r}))
+            continue
         res.add_case({'prefixes': [u1, u2], 'readings': r})
         if set(i1) & set(i2):
             res.violations.append(Violation('prefix-collision', f"prefixes {u1!r} and {u2!r} share {sorted(set(i1) & set(i2))[:2]}",
